@@ -17,7 +17,8 @@
    Print Assumptions, and the statements that are not proved (Definition C13_full_...). *)
 From SV Require Import Base.Prelude Model.Mailbox Model.MailboxNet Model.C13Run
   Proof.MailboxNetLift Proof.MailboxStepFacts Proof.MailboxMeasure Proof.MailboxNetFlow Proof.MailboxNetBound
-  Proof.MailboxNetChain Proof.MailboxNetQuiesce Proof.MailboxNetLazy Proof.MailboxNetExamples.
+  Proof.MailboxNetChain Proof.MailboxNetQuiesce Proof.MailboxNetLazy Proof.MailboxNetExamples
+  Proof.MailboxNetWire Proof.MailboxNetWireExamples.
 Local Open Scope nat_scope.
 
 (* No mailbox of any network ever holds more than max_messages undelivered messages: any wiring (any
@@ -156,23 +157,51 @@ Theorem C13_bound_wired_fanout3 :
 Proof. exact fanout3_bound. Qed.
 Print Assumptions C13_bound_wired_fanout3.
 
+(* ---------------- every real wiring ---------------- *)
+
+(* valid_comps c :=  NoDup (sender_keys c)   (every mailbox gets exactly one sender: a loader, a single-output
+                                              plugin under its own key, a multi-output plugin's iter for its
+                                              <Plugin>_divide_outputs mailbox, the divider for the outputs
+                                              that are not fed by a loader)
+                  /\ components.plugins lists every plugin under a data type it provides.
+   Nothing else: any plugin graph (single- and multi-output plugins, joins, diamonds), loaders for any stored
+   subset, any savers, any discarded outputs, any per-plugin max_messages; not even acyclicity is needed.
+
+   The wiring computed by `wire` (the model of ThreadedMailboxProcessor.__init__) is well-formed for EVERY
+   valid component set, lazy or eager, any max_messages: so C13_flow_bound_path, C13_quiescence_reached and the
+   lifted C05 invariants apply to every wiring the constructor can produce. *)
+Theorem C13_wire_wellformed :
+  forall (c : comps) (o : popts) (p N : nat), valid_comps c -> GI N (net_of (wire c o p) N).
+Proof. exact wire_wf. Qed.
+Print Assumptions C13_wire_wellformed.
+
+(* ... hence every schedule of every such pipeline is finite ... *)
+Theorem C13_every_wiring_comes_to_rest :
+  forall (c : comps) (o : popts) (p N : nat) (sched : list nat) (n : net),
+    valid_comps c -> nrun (net_of (wire c o p) N) sched = Some n ->
+    length sched <= net_mu (n_boxes (net_of (wire c o p) N)).
+Proof. exact wire_comes_to_rest. Qed.
+Print Assumptions C13_every_wiring_comes_to_rest.
+
+(* ... and the backpressure bound: needed c o p d B says that data type d is needed for the target through
+   plugins of the components, with B = p + 2 * (sum of max_messages of the mailboxes on that dependency path;
+   a multi-output plugin contributes its divide_outputs mailbox).  For every valid components, every data type
+   needed for the target (in particular every source), every schedule and every run length N, the iterable
+   feeding d's mailbox is advanced at most B + 1 times; B depends on the graph, the capacities and p only. *)
+Theorem C13_backpressure_every_wiring :
+  forall (c : comps) (o : popts) (p d B : nat),
+    valid_comps c -> needed c o p d B ->
+    exists u, ws_index (KD d) (table_of (wire c o p)) = Some u /\
+      forall N sched n, nrun (net_of (wire c o p) N) sched = Some n -> advances N (n_boxes n) u <= B + 1.
+Proof. exact wire_flow_bound. Qed.
+Print Assumptions C13_backpressure_every_wiring.
+
 (* ---------------- stated, not proved ---------------- *)
 
-(* General DAGs: (a) every wiring `wire` computes for valid components is well-formed (proved above for the
-   families and the listed graphs by wf_b; the check evaluates the wiring of every explored graph against
-   the real constructor), (b) in lazy mode with single-subscriber mailboxes the source is advanced exactly
-   as often as the consumer asks (the path bound above is capacity-based and therefore not tight in lazy
-   mode; the exhaustive model exploration in the check gives the exact values), for graphs with unequal
-   lags between the branches of a diamond included. *)
-Definition valid_comps (c : comps) : Prop :=
-  let order := plugin_order (c_plugins c) [] in
-  let outs := c_loaders c ++ flat_map (fun dq => divided c (pdef c (snd dq))) order in
-  NoDup outs /\ (forall d, In d (required c) -> In d outs) /\
-  (forall dq, In dq (c_plugins c) -> In (fst dq) (p_provides (pdef c (snd dq)))) /\
-  (forall dn, In dn (c_savers c) -> In (fst dn) outs).
-
+(* The exact demand-driven count in lazy mode: with the repaired gate a lazy pipeline whose consumer takes p
+   chunks advances its source exactly p times (the proved bounds are capacity-based and therefore not tight
+   in lazy mode; the check compares with the model's exhaustively explored state graph, which gives exactly p
+   for every lazy configuration it explores). *)
 Definition C13_full_dag : Prop :=
-  (forall (c : comps) (o : popts) (p : nat), valid_comps c ->
-      wf_b (map (fun kcd => (snd (fst kcd), snd kcd)) (w_boxes (wire c o p))) (map snd (w_threads (wire c o p))) = true) /\
-  (forall (L c p N : nat) (sched : list nat) (n : net),
-      1 <= L -> nrun (chain_net L c true p N) sched = Some n -> advances N (n_boxes n) 0 <= p).
+  forall (L c p N : nat) (sched : list nat) (n : net),
+    1 <= L -> nrun (chain_net L c true p N) sched = Some n -> advances N (n_boxes n) 0 <= p.
